@@ -11,7 +11,7 @@ pub fn meta() -> Meta {
     Meta {
         id: "C17",
         level: "exploration",
-        rule: "planted-SNP families through `ska build` + `ska lo` (CLI, --threads 1..4 chosen per case, hash seeds owned by the shim: 2 quick / 3 thorough): ancestors of length 10k+1 whose (k-1)-mers are unique on both strands; k in {7,9,15,21,31,33} (thorough: every odd k in 7..33); sites = every non-empty subset of the grid {3k, 5k, 7k+1} (spacing exactly 2k and 2k+1, margins 3k); allele assignments = every biallelic split for n=3,4,5 samples, every triallelic assignment for n=3 (thorough: n=4) and carrier patterns for n=6,10 (thorough: 8); sample orientations; without reference and (k>=15) with the ancestor as reference, the reference file laid out in one of four ways chosen per case (one line; lines of 60; lines of 70 with CRLF; header with description, lines of 50, no final newline); -m in {0, 0.1, 0.2}. Oracle without reference: the column multiset modulo whole-column complement equals the planted one. With reference (soundness): every VCF record lies at a planted site, REF is the ancestor base, every given genotype decodes to that sample's true base, pseudo-genomes have the ancestor's length and agree with each sample at every called position. Repeated-arms family (k in {9,15,21,31,33}): the same two arms around 2..4 different middle bases (every ambiguity code of 2..4 bases stored in every sample), a planted site inside the arm of each copy in turn plus a distant one. Well-formedness family outside the premise (SNP pairs at every distance 1..2k, SNP next to an indel, three alleles at adjacent sites, a sample lacking a region): equal sequence lengths, >= 2 distinct A/C/G/T per column, missing fraction <= m. Cases whose derived samples break (k-1)-mer uniqueness are trivial and not judged for completeness. Every 48th case is repeated through the dev-profile build of the CLI (arithmetic overflow checks on) and must get the same verdict.".into(),
+        rule: "planted-SNP families through `ska build` + `ska lo` (CLI, --threads 1..4 chosen per case, hash seeds owned by the shim: 2 quick / 3 thorough): ancestors of length 10k+1 whose (k-1)-mers are unique on both strands; k in {7,9,15,21,31,33} (thorough: every odd k in 7..33); sites = every non-empty subset of the grid {3k, 5k, 7k+1} (spacing exactly 2k and 2k+1, margins 3k); allele assignments = every biallelic split for n=3,4,5 samples, every triallelic assignment for n=3 (thorough: n=4) and carrier patterns for n=6,10 (thorough: 8); sample orientations; without reference and (k>=15) with the ancestor as reference, the reference file laid out in one of four ways chosen per case (one line; lines of 60; lines of 70 with CRLF; header with description, lines of 50, no final newline); -m in {0, 0.1, 0.2}. Oracle without reference: the column multiset modulo whole-column complement equals the planted one. With reference (soundness): every VCF record lies at a planted site, REF is the ancestor base, every given genotype decodes to that sample's true base, pseudo-genomes have the ancestor's length and agree with each sample at every called position. Sequence-end family (k in {7,15,31}): a site exactly k-1, k, k+1, 2k-1 bases from either end is called; sites closer than k-1 are not called by the pinned tool (listed in known_findings.txt). Repeated-arms family (k in {9,15,21,31,33}): the same two arms around 2..4 different middle bases (every ambiguity code of 2..4 bases stored in every sample), a planted site inside the arm of each copy in turn plus a distant one. Well-formedness family outside the premise (SNP pairs at every distance 1..2k, SNP next to an indel, three alleles at adjacent sites, a sample lacking a region): equal sequence lengths, >= 2 distinct A/C/G/T per column, missing fraction <= m. Cases whose derived samples break (k-1)-mer uniqueness are trivial and not judged for completeness. Every 48th case is repeated through the dev-profile build of the CLI (arithmetic overflow checks on) and must get the same verdict.".into(),
         assumptions: vec!["hash-seed space is a declared finite set (2/3 seeds); thread counts are C11's".into(), "release-profile arithmetic (DESIGN §2)".into()],
         exhaustive_when_uncapped: true,
     }
@@ -268,6 +268,75 @@ pub fn run(ctx: &Ctx, rep: &mut Report) {
         rep.completed.push(format!("planted SNPs k={k}"));
     }
     rep.sample(json!({"k": 15, "sites": [45, 75], "alleles": [[0, 1, 1], [1, 0, 1]], "flip": [false, true, false], "with_ref": true, "m": "0.1", "oracle": "every VCF record at a planted site with REF = ancestor base and true genotypes; pseudo-genomes agree"}));
+    // sites near the sequence ends. The statement sets no margin; `ska lo` needs k-1 bases of context on both sides of a
+    // site (a bubble is anchored by a (k-1)-mer on each side). Distances k-1, k, k+1, 2k-1 from either end must be
+    // called; a site closer than k-1 to an end is not called by the pinned tool — reported under its own key, which
+    // known_findings.txt lists (any other discrepancy at such a site is reported as usual).
+    if !rep.capped {
+        for k in [7usize, 15, 31] {
+            let h = (k - 1) / 2;
+            let anc = lo::ancestor(10 * k + 1, k, ctx.seed + 23);
+            let len = anc.len();
+            for (d, callable) in [(k - 1, true), (k, true), (k + 1, true), (2 * k - 1, true), (0usize, false), (1, false), (h, false), (k - 2, false)] {
+                for at_end in [false, true] {
+                    idx += 1;
+                    if !ctx.mine(idx) {
+                        continue;
+                    }
+                    let p = if at_end { len - 1 - d } else { d };
+                    let c = SnpCase { k, ancestor: anc.clone(), sites: vec![p, 5 * k], alleles: vec![vec![0, 1, 1, 0], vec![1, 1, 0, 0]], flip: vec![false, true, false, false] };
+                    rep.evaluations += 1;
+                    if callable {
+                        match check(&c, false, "0", ctx.seed, &dir) {
+                            Ok(true) => {
+                                rep.nontrivial += 1;
+                                rep.corner("site_exactly_k-1_or_more_from_a_sequence_end");
+                            }
+                            Ok(false) => rep.corner("premise_not_met"),
+                            Err(e) if e.starts_with("MACHINERY") => rep.machinery(e),
+                            Err(e) => rep.violate(format!("site {d} from the {} k={k}", if at_end { "end" } else { "start" }), format!("k={k}: site {d} bases from the sequence {}: {e}", if at_end { "end" } else { "start" }), case_json(&c, false, "0", ctx.seed)),
+                        }
+                    } else {
+                        let o = match lo::run_lo(&dir, k, &c.samples(), None, &["-m", "0"], 1, Some(ctx.seed)) {
+                            Ok(o) => o,
+                            Err(e) => {
+                                rep.machinery(e);
+                                continue;
+                            }
+                        };
+                        if !c.premise() {
+                            rep.corner("premise_not_met");
+                            continue;
+                        }
+                        rep.nontrivial += 1;
+                        let planted = c.planted_columns();
+                        let near_end = lo::canon_col(&(0..c.n()).map(|i| lo::alt_base(anc[p], c.alleles[0][i])).collect::<Vec<u8>>());
+                        let without: Vec<Vec<u8>> = {
+                            let mut v = planted.clone();
+                            if let Some(i) = v.iter().position(|x| *x == near_end) {
+                                v.remove(i);
+                            }
+                            v
+                        };
+                        let got = if o.code == 0 { lo::snp_columns(&o).unwrap_or_default() } else { vec![] };
+                        if got == planted {
+                            rep.corner("site_closer_than_k-1_to_an_end_is_called");
+                        } else if o.code == 0 && got == without {
+                            rep.corner("site_closer_than_k-1_to_an_end_is_not_called");
+                            rep.violate(
+                                format!("site-closer-than-k-1-to-a-sequence-end k={k} d={d} at_end={at_end}"),
+                                format!("k={k}: the substitution {d} bases from the sequence {} (fewer than k-1 bases of context) is not reported; the other planted site is", if at_end { "end" } else { "start" }),
+                                json!({"wf": "site near a sequence end", "k": k, "d": d, "at_end": at_end}),
+                            );
+                        } else {
+                            rep.violate(format!("near-end site k={k} d={d} at_end={at_end}: other discrepancy"), format!("k={k}: site {d} bases from the sequence {}: exit {} and {} columns, neither all planted sites nor all but the one near the end", if at_end { "end" } else { "start" }, o.code, got.len()), json!({"wf": "site near a sequence end (other)", "k": k, "d": d, "at_end": at_end}));
+                        }
+                    }
+                }
+            }
+        }
+        rep.completed.push("sites near the sequence ends".into());
+    }
     // repeated arms: the ancestor holds the same two arms L, R around different middle bases at 2..4 places (all
     // (k-1)-mers stay unique, each contains the middle base), so every sample stores an ambiguity code for L.R — every
     // code with 2..4 bases; one planted site lies inside the arm of each copy in turn, one far away
